@@ -1,7 +1,10 @@
 """C14 -- syncsafe integers (BitPaddedInt / to_str / has_valid_padding) and unsynchronisation
 (unsynch.encode / unsynch.decode): proofs over the hand model Model.Id3Util; exhaustive small-domain
 correspondence of the extracted model with mutagen.id3._util; direct oracle on the real functions taken
-from the property statement (independent reference codecs); hand-built unsynchronised ID3v2.3/2.4 tags."""
+from the property statement (independent reference codecs); hand-built ID3v2.3/2.4 tags in every layering of the
+unsynchronisation flags (tag level, frame level), zlib compression and the data length indicator that the reader
+supports, read with mutagen and compared with the bytes that went in (Model.C14_Layers proves that the source's
+order -- destuff, then inflate -- inverts that layering for any inflate/deflate pair)."""
 import io, os, re, sys, json, struct, itertools, subprocess
 from common import zs, zp, hx, unhx, coq_bytes, vm_shard
 import common
@@ -15,7 +18,12 @@ TRUSTED = [
     "Python int/bytes semantics assumed by the model: >> & << on non-negative ints = Z.shiftr/Z.land/Z.shiftl, "
     "bytearray.split/join, bytearray item assignment raising IndexError/ValueError",
     "non-termination is modelled as EOutOfFuel; the theorems exclude it for every input they cover",
-    "tag level (ID3Header / read_frames / Frame._fromData honouring the unsynchronisation flags) is tested, not proved",
+    "tag level: Model.C14_Layers is a hand transcription of the flag handling of Frame._fromData (v2.3 and v2.4 branches) and of the "
+    "whole-tag destuffing at the head of read_frames, with zlib.decompress an arbitrary function (Section variable); it is tied to /repo "
+    "by a per-run vm_compute correspondence against Frame._fromData (a few dozen flag/data combinations, zlib replaced by a one-entry "
+    "table in the model) and by the tag-level oracle; header parsing, frame cutting (read_frames loop, determine_bpi) and the frame "
+    "specs are tested by the oracle, not proved",
+    "Python's zlib module is the reference deflate/inflate of the hand-built tags (plus a hand-made stored-block deflate writer checked against it)",
 ]
 MANIFEST = {
     "text": "full for the codecs: machine-checked theorems, for every integer, width, bits in 1..8, both byte orders and every byte string "
@@ -24,9 +32,13 @@ MANIFEST = {
             "BitPaddedInt(int) re-reads the int's bytes; unsynch.decode(unsynch.encode(s)) = s, encode output has no 0xFF followed by >= 0xE0 "
             "and never ends in 0xFF, decode rejects exactly the unsafe strings. The model is tied to the implementation by an exhaustive "
             "correspondence (integers below 2^16 x bits x widths x byte order, all strings over a sync-relevant alphabet to length 7); "
-            "the use of the codecs when reading tags with the unsynchronisation flag is checked by a direct oracle on hand-built tags",
-    "note": "Modelled, not verified: the hand model of id3/_util.py (tied by correspondence, not regenerated). The tag-level part "
-            "(header flag in v2.3, per-frame / global flag in v2.4) is a runtime oracle over hand-built tags, not a theorem. "
+            "for the flag handling of Frame._fromData (model with zlib abstract): for every inflate/deflate pair with inflate(deflate b) = b and every "
+            "combination of tag-level flag, frame flag, compression and data length indicator the frame laid out as the ID3 specification says "
+            "(deflate, syncsafe length bytes, then stuffing) is read back as the original frame bytes, and the swapped order is refuted; "
+            "the use of all this when reading tags is checked by a direct oracle on hand-built tags covering every such layering",
+    "note": "Modelled, not verified: the hand models of id3/_util.py and of the flag layers of Frame._fromData (tied by correspondence, not "
+            "regenerated; zlib is an abstract function in the model). Reading whole tags (header flag in v2.3, per-frame / global flag in v2.4, "
+            "x compression x data length indicator) is a runtime oracle over hand-built tags, not a theorem. "
             "The model cannot exhibit memory exhaustion; a hang of the implementation is detected by a watchdog subprocess.",
     "technique": "Coq proof (digit arithmetic by induction with explicit provably sufficient fuel; split/join list lemmas) over a hand "
                  "Gallina model + exhaustive correspondence via extracted OCaml model + direct oracle with independent reference codecs",
@@ -37,7 +49,12 @@ RULE = ("correspondence: every (value, bits 1..8, byte order, (width,minwidth) i
         "BitPaddedInt(bytes), has_valid_padding(int|bytes); every byte string over {00,01,7F,80,DF,E0,FE,FF} up to length 5 (quick) / 7 "
         "(thorough) plus random long strings for unsynch.encode/decode; value or bytes and exception class compared with the extracted model. "
         "direct oracle: the same inputs against the property statement with independent reference codecs; negative values in a watchdog "
-        "subprocess; hand-built v2.3/v2.4 tags with unsynchronisation flags vs the plain tag and the expected payload. "
+        "subprocess; hand-built tags: v2.3 {whole-tag unsynchronisation} x {plain, compressed frames (4-byte size + zlib)} and v2.4 {tag-level flag} x "
+        "{frame flag} x {plain, data length indicator, zlib + data length indicator, zlib without the indicator flag}, zlib streams from "
+        "Python's zlib at levels 0/6/9, with a sync flush (00 00 FF FF inside) and from a hand-made stored-block writer (NLEN = FF..), "
+        "padded and unpadded, plus random per-frame mixtures; payloads = every alphabet string to length 3 (quick) / 4, long FF runs, "
+        "FF 00 runs, random alphabet and random byte strings; five/six frames per tag (MCDI = the payload itself, PRIV x2, UFID, TIT2 "
+        "UTF-16 with BOM, TPE1 latin-1) must read back exactly and like the flag-free tag. "
         "non-trivial = value > 0 / non-empty string / rejected input; distinct by (function, parameters, input)")
 
 ALPHABET = (0x00, 0x01, 0x7F, 0x80, 0xDF, 0xE0, 0xFE, 0xFF)
@@ -564,56 +581,214 @@ def random_strings(rng, n, maxlen):
 
 
 # ---------------------------------------------------------------------------------------------
-# tag level: hand-built tags with unsynchronisation flags
+# tag level: hand-built tags, every layering of unsynchronisation / compression / data length indicator the
+# reader supports.  The writer side here is the ID3v2.3 / v2.4 specification, built by hand (own syncsafe
+# ints, own stuffing, Python's zlib or the hand-made stored-block deflate below) -- never mutagen's writer.
+#   v2.4 frame:  body -> [zlib] -> [4-byte syncsafe data length] -> [stuffing, frame flag 0x0002 or tag flag 0x80]
+#   v2.3 tag:    frame = [4-byte plain decompressed size + zlib, flag 0x0080]; whole tag body stuffed (flag 0x80)
+# so the reader must undo the stuffing BEFORE inflating, and must not destuff the inflated plaintext.
 
 def syncsafe4(n):
     assert 0 <= n < (1 << 28)
     return bytes([(n >> 21) & 0x7F, (n >> 14) & 0x7F, (n >> 7) & 0x7F, n & 0x7F])
 
 
+def ref_adler32(s):
+    a, b = 1, 0
+    for c in s:
+        a = (a + c) % 65521
+        b = (b + a) % 65521
+    return (b << 16) | a
+
+
+def stored_deflate(body, cuts):
+    """hand-made zlib stream of stored (uncompressed) deflate blocks, `body` cut at the given positions (a
+    repeated or 0 position gives an empty block: 00 00 00 FF FF).  Every block header carries NLEN = ~LEN, so
+    the stream is full of FF bytes: FF FF for an empty block, xx FF for a block shorter than 256 bytes."""
+    pos = [0] + sorted(min(max(c, 0), len(body)) for c in cuts) + [len(body)]
+    pieces = [body[pos[i]:pos[i + 1]] for i in range(len(pos) - 1)]
+    out = bytearray(b"\x78\x01")
+    for i, p in enumerate(pieces):
+        assert len(p) < 65536
+        out.append(1 if i == len(pieces) - 1 else 0)
+        out += struct.pack("<HH", len(p), len(p) ^ 0xFFFF)
+        out += p
+    out += struct.pack(">I", ref_adler32(body))
+    return bytes(out)
+
+
+ZMODES = ("z0", "z6", "z9", "sync", "hand")
+
+
+def deflate(body, zmode):
+    import zlib
+    if zmode == "z0":
+        return zlib.compress(body, 0)
+    if zmode == "z6":
+        return zlib.compress(body)
+    if zmode == "z9":
+        return zlib.compress(body, 9)
+    if zmode == "sync":   # a sync flush in the middle leaves the marker 00 00 FF FF inside the stream
+        c = zlib.compressobj(6)
+        h = len(body) // 2
+        return c.compress(body[:h]) + c.flush(zlib.Z_SYNC_FLUSH) + c.compress(body[h:]) + c.flush()
+    if zmode == "hand":   # empty stored block first, then the body in two stored blocks
+        return stored_deflate(body, [0, len(body) // 2])
+    raise ValueError(zmode)
+
+
+def tag_selftest():
+    """the hand-made deflate streams inflate (Python's zlib) to the body; the layers really need stuffing"""
+    import zlib
+    for body in (b"", b"\x00", b"\x00abc", b"\xff\x00\xff", bytes(range(256)) * 3, b"\xff" * 256):
+        assert ref_adler32(body) == zlib.adler32(body)
+        for cuts in ([], [0], [1], [0, 0, 2], [len(body) // 2], [0, len(body) // 2]):
+            assert zlib.decompress(stored_deflate(body, cuts)) == body, (body, cuts)
+        for zm in ZMODES:
+            z = deflate(body, zm)
+            assert zlib.decompress(z) == body, (body, zm)
+            e = ref_unsynch_encode(z)
+            assert not ref_unsafe(e) and ref_destuff_slow(e) == z
+            if zm in ("sync", "hand"):
+                assert e != z, (body, zm)   # 00 00 FF FF is in the stream
+    z = deflate(b"\x00abc", "z0")
+    assert ref_unsynch_encode(z) != z       # stored block < 256 bytes: NLEN high byte FF, then the 00
+
+
 TITLE = "ÿþtitleÿ"
+ARTIST = "ÿ artist é ÿþ"
 
 
-def frame_payloads(payload):
-    """(frame id, frame body) for three frames carrying `payload` and FF-rich text"""
-    return [
+def frame_bodies(payload):
+    """(frame id, frame body) of the frames carrying `payload` and FF-rich text.  MCDI is a plain binary frame:
+    its body IS the payload, so the byte after a stored-block header is under the payload's control."""
+    fr = [
         (b"PRIV", b"own\x00" + payload),
         (b"TIT2", b"\x01\xff\xfe" + TITLE.encode("utf-16-le")),
         (b"UFID", b"http://x\x00" + payload),
+        (b"TPE1", b"\x00" + ARTIST.encode("latin-1")),     # encoding byte 00 right after a stored-block header
+        (b"PRIV", b"\x00" + payload),                      # empty owner: 00 first, then the payload
     ]
+    if payload:
+        fr.insert(0, (b"MCDI", payload))   # (an empty frame is dropped by every reader)
+    return fr
 
 
-def build_v23(payload, unsync, padding=0):
-    body = b"".join(fid + struct.pack(">IH", len(b), 0) + b for fid, b in frame_payloads(payload)) + b"\x00" * padding
-    if unsync:
-        body = ref_unsynch_encode(body)
-    return b"ID3\x03\x00" + bytes([0x80 if unsync else 0]) + syncsafe4(len(body)) + body
+def frame_spec(layout, i):
+    """[frame unsynchronisation flag, zmode or None, data length indicator flag] of the i-th frame"""
+    fs = layout["frames"]
+    fu, zm, dl = fs[i % len(fs)]
+    return bool(fu), zm, bool(dl)
 
 
-def build_v24(payload, frame_unsync, datalen, global_flag, padding=0):
+class Built:
+    """a hand-built tag plus what went into it"""
+    def __init__(self):
+        self.raw = b""
+        self.stuffed_deflate = 0      # frames whose deflate stream needed stuffed bytes
+        self.ff00_plain = 0           # compressed + unsynchronised frames whose plaintext contains FF 00
+        self.stuffed = 0              # frames / tags changed by the stuffing at all
+
+
+def build_layout(layout, payload, zcache=None):
+    ver, tu, pad = layout["version"], bool(layout["tag_unsynch"]), layout.get("padding", 0)
+    zcache = {} if zcache is None else zcache
+
+    def z(body, zm):
+        k = (body, zm)
+        if k not in zcache:
+            zcache[k] = deflate(body, zm)
+        return zcache[k]
+
+    B = Built()
     out = b""
-    for fid, b in frame_payloads(payload):
-        flags, data = 0, b
-        if frame_unsync or global_flag:
-            data = ref_unsynch_encode(data)
-        if frame_unsync:
-            flags |= 0x0002
-        if datalen:
-            flags |= 0x0001
-            data = syncsafe4(len(b)) + data
-        out += fid + syncsafe4(len(data)) + struct.pack(">H", flags) + data
-    out += b"\x00" * padding
-    return b"ID3\x04\x00" + bytes([0x80 if global_flag else 0]) + syncsafe4(len(out)) + out
+    for i, (fid, body) in enumerate(frame_bodies(payload)):
+        fu, zm, dl = frame_spec(layout, i)
+        flags, data = 0, body
+        if ver == 4:
+            if zm:
+                data = z(body, zm)
+                flags |= 0x0008
+            if dl:
+                flags |= 0x0001
+            if zm or dl:      # the reader skips four bytes for either flag
+                data = syncsafe4(len(body)) + data
+            if fu:
+                flags |= 0x0002
+            if fu or tu:
+                e = ref_unsynch_encode(data)
+                if e != data:
+                    B.stuffed += 1
+                    if zm:
+                        B.stuffed_deflate += 1
+                if zm and b"\xff\x00" in body:
+                    B.ff00_plain += 1
+                data = e
+            out += fid + syncsafe4(len(data)) + struct.pack(">H", flags) + data
+        else:
+            if zm:
+                data = struct.pack(">L", len(body)) + z(body, zm)
+                flags |= 0x0080
+                if tu:
+                    if ref_unsynch_encode(data) != data:
+                        B.stuffed_deflate += 1
+                    if b"\xff\x00" in body:
+                        B.ff00_plain += 1
+            out += fid + struct.pack(">IH", len(data), flags) + data
+    out += b"\x00" * pad
+    if ver == 3 and tu:
+        e = ref_unsynch_encode(out)
+        B.stuffed += e != out
+        out = e
+    B.raw = b"ID3" + bytes([ver, 0, 0x80 if tu else 0]) + syncsafe4(len(out)) + out
+    return B
 
 
-TAG_VARIANTS = [
-    ("v2.3 header unsynchronisation flag", lambda p: build_v23(p, False), lambda p: build_v23(p, True)),
-    ("v2.3 header unsynchronisation flag, padded", lambda p: build_v23(p, False, 7), lambda p: build_v23(p, True, 7)),
-    ("v2.4 per-frame unsynchronisation flag", lambda p: build_v24(p, False, False, False), lambda p: build_v24(p, True, False, False)),
-    ("v2.4 per-frame unsynchronisation flag with data length indicator", lambda p: build_v24(p, False, False, False), lambda p: build_v24(p, True, True, False)),
-    ("v2.4 header and per-frame unsynchronisation flags", lambda p: build_v24(p, False, False, False), lambda p: build_v24(p, True, False, True)),
-    ("v2.4 header unsynchronisation flag only", lambda p: build_v24(p, False, False, False), lambda p: build_v24(p, False, False, True)),
-]
+def L(ver, tu, fu, zm, dl, pad=0):
+    return {"version": ver, "tag_unsynch": int(tu), "padding": pad, "frames": [[int(fu), zm, int(dl)]]}
+
+
+def layout_name(l):
+    fs = l["frames"]
+    if len(fs) == 1:
+        fu, zm, dl = fs[0]
+        f = ("frame-unsynch=%d " % fu if l["version"] == 4 else "") + "z=%s" % (zm or "-") + (" datalen=%d" % dl if l["version"] == 4 else "")
+    else:
+        f = "mixed per-frame flags"
+    return "v2.%d tag-unsynch=%d %s%s" % (l["version"], l["tag_unsynch"], f, " padded" if l.get("padding") else "")
+
+
+def uniform_layouts():
+    out = []
+    for tu in (0, 1):
+        for zm in (None,) + ZMODES:
+            out.append(L(3, tu, 0, zm, 0))
+        out.append(L(3, tu, 0, None, 0, 7))
+        out.append(L(3, tu, 0, "hand", 0, 7))
+    for tu in (0, 1):
+        for fu in (0, 1):
+            out.append(L(4, tu, fu, None, 0))
+            out.append(L(4, tu, fu, None, 1))
+            for zm in ZMODES:
+                out.append(L(4, tu, fu, zm, 1))
+            out.append(L(4, tu, fu, "z6", 0))     # compression flag without the data length flag: the reader
+            out.append(L(4, tu, fu, "hand", 0))   # still skips the four bytes
+        out.append(L(4, tu, 1, None, 0, 7))
+        out.append(L(4, tu, 1, "hand", 1, 7))
+    return out
+
+
+UNIFORM = uniform_layouts()
+# replay files of the earlier, narrower oracle ("fn": "tag", "variant": index)
+OLD_VARIANTS = [L(3, 1, 0, None, 0), L(3, 1, 0, None, 0, 7), L(4, 0, 1, None, 0), L(4, 0, 1, None, 1), L(4, 1, 1, None, 0), L(4, 1, 0, None, 0)]
+
+
+def mixed_layout(rng, ver):
+    fs = []
+    for _ in range(6):
+        zm = rng.choice((None, None) + ZMODES)
+        fs.append([rng.randrange(2) if ver == 4 else 0, zm, (1 if zm else rng.randrange(2)) if ver == 4 else 0])
+    return {"version": ver, "tag_unsynch": rng.randrange(2), "padding": rng.choice((0, 0, 1, 7, 10, 11)), "frames": fs}
 
 
 def load_tag(data):
@@ -636,41 +811,77 @@ def tag_view(t):
     return view
 
 
-def oracle_tag(V, payload, idx):
-    name, plain_b, uns_b = TAG_VARIANTS[idx]
-    d = {"fn": "tag", "variant": idx, "variant_name": name, "payload": payload.hex()}
-    del name   # the variant is in the data; messages stay few and stable
-    plain, uns = load_tag(plain_b(payload)), load_tag(uns_b(payload))
+def oracle_layout(V, payload, layout, zcache=None, plain_views=None, stats=None):
+    """load the hand-built tag; every frame must read back as the bytes that were layered into it, and the
+    whole tag must read like the flag-free tag of the same version"""
+    d = {"fn": "tagx", "layout": layout, "layout_name": layout_name(layout), "payload": payload.hex()}
+    B = build_layout(layout, payload, zcache)
+    if stats is not None:
+        stats(B)
+    t = load_tag(B.raw)
+    if isinstance(t, str):
+        V("tag: hand-built tag does not load", dict(d, observed=t))
+        return False
     ok = True
-    for label, t, raw in (("plain", plain, plain_b(payload)), ("unsynchronised", uns, uns_b(payload))):
-        if isinstance(t, str):
-            V("tag: hand-built tag does not load", dict(d, which=label, observed=t)); ok = False
-            continue
-        priv, ufid, tit2 = t.getall("PRIV"), t.getall("UFID"), t.getall("TIT2")
-        if len(priv) != 1 or priv[0].owner != "own" or priv[0].data != payload:
-            V("tag: binary frame data read from the tag differs from the original frame bytes",
-              dict(d, which=label, frame="PRIV", observed=priv[0].data.hex() if priv else None)); ok = False
-        if len(ufid) != 1 or ufid[0].data != payload or ufid[0].owner != "http://x":
-            V("tag: binary frame data read from the tag differs from the original frame bytes",
-              dict(d, which=label, frame="UFID", observed=ufid[0].data.hex() if ufid else None)); ok = False
-        if len(tit2) != 1 or list(tit2[0].text) != [TITLE]:
+    bin_msg = "tag: binary frame data read from the tag differs from the original frame bytes"
+
+    def hexs(fr):
+        return [f.data.hex() for f in fr] if fr else None
+
+    if payload:
+        mcdi = t.getall("MCDI")
+        if len(mcdi) != 1 or mcdi[0].data != payload:
+            V(bin_msg, dict(d, frame="MCDI", observed=hexs(mcdi))); ok = False
+    ufid, tit2, tpe1 = t.getall("UFID"), t.getall("TIT2"), t.getall("TPE1")
+    for owner in ("own", ""):
+        priv = [f for f in t.getall("PRIV") if f.owner == owner]
+        if len(priv) != 1 or priv[0].data != payload:
+            V(bin_msg, dict(d, frame="PRIV:" + owner, observed=hexs(priv))); ok = False
+    if len(t.getall("PRIV")) != 2:
+        V(bin_msg, dict(d, frame="PRIV", observed=hexs(t.getall("PRIV")))); ok = False
+    if len(ufid) != 1 or ufid[0].data != payload or ufid[0].owner != "http://x":
+        V(bin_msg, dict(d, frame="UFID", observed=hexs(ufid))); ok = False
+    for name, fr, want in (("TIT2", tit2, TITLE), ("TPE1", tpe1, ARTIST)):
+        if len(fr) != 1 or list(fr[0].text) != [want]:
             V("tag: text frame read from the tag differs from the original",
-              dict(d, which=label, frame="TIT2", observed=repr(tit2[0].text) if tit2 else None)); ok = False
-        if t.size != len(raw):
-            V("tag: header size (BitPaddedInt) differs from the tag length", dict(d, which=label, observed=t.size)); ok = False
-    if not isinstance(plain, str) and not isinstance(uns, str) and tag_view(plain) != tag_view(uns):
-        V("tag: frames read with the unsynchronisation flag differ from the plain tag", d); ok = False
+              dict(d, frame=name, observed=repr(fr[0].text) if fr else None)); ok = False
+    if t.size != len(B.raw):
+        V("tag: header size (BitPaddedInt) differs from the tag length", dict(d, observed=t.size)); ok = False
+    if t.unknown_frames:
+        V("tag: a frame of the hand-built tag is not decoded (kept as unknown)", dict(d, observed=[bytes(u).hex() for u in t.unknown_frames][:2])); ok = False
+    # against the flag-free tag of the same version
+    ver = layout["version"]
+    if plain_views is None:
+        plain_views = {}
+    if ver not in plain_views:
+        plain_views[ver] = tag_view(load_tag(build_layout(L(ver, 0, 0, None, 0), payload).raw))
+    if tag_view(t) != plain_views[ver]:
+        V("tag: frames read with the unsynchronisation / compression flags differ from the plain tag", d); ok = False
     return ok
 
 
-def run_tags(ctx, payloads):
+def run_tags(ctx, payloads, nmixed=2):
     V = _viol(ctx)
+    rng = ctx.rng
+
+    def stats(B):
+        if B.stuffed:
+            ctx.count("tag-content:stuffing inserted")
+        if B.stuffed_deflate:
+            ctx.count("tag-content:stuffing inside a deflate stream")
+        if B.ff00_plain:
+            ctx.count("tag-content:FF 00 in the plaintext of a compressed unsynchronised frame")
+
     for p in payloads:
-        for idx in range(len(TAG_VARIANTS)):
-            oracle_tag(V, p, idx)
+        zcache, plain = {}, {}
+        layouts = [(i, l) for i, l in enumerate(UNIFORM)]
+        for k in range(nmixed):
+            layouts.append((len(UNIFORM) + k, mixed_layout(rng, 3 + (k + len(p)) % 2)))
+        for i, l in layouts:
+            oracle_layout(V, p, l, zcache, plain, stats)
             ctx.oracle_cases += 1
-            ctx.count("tag:" + TAG_VARIANTS[idx][0])
-            ctx.case(b"t%d" % idx + p)
+            ctx.count("tag:" + layout_name(l))
+            ctx.case(b"t%d." % i + p if i < len(UNIFORM) else b"tm" + json.dumps(l, sort_keys=True).encode() + p)
     # a header whose size bytes are not syncsafe must be rejected
     import mutagen
     for bad in (b"\x00\x00\x00\x80", b"\x80\x00\x00\x00", b"\x00\xff\x00\x00"):
@@ -691,17 +902,97 @@ def run_tags(ctx, payloads):
 
 def tag_payloads(rng, maxlen, nrandom):
     out = list(alphabet_strings(maxlen))
-    for n in (126, 127, 128, 129, 255, 256, 300):
+    for n in (126, 127, 128, 129, 251, 252, 255, 256, 300):
         out.append(b"\xff" * n)
+        out.append(b"\xff\x00" * (n // 2))
         out.append((b"\xff\xe0\x00\xff\x00")[:5] * (n // 5) + b"\xff")
         out.append(bytes(rng.choice(ALPHABET) for _ in range(n)))
+        out.append(bytes(rng.randrange(256) for _ in range(n)))
     for _ in range(nrandom):
         out.append(bytes(rng.choice(ALPHABET) for _ in range(rng.randrange(0, 200))))
+        out.append(bytes(rng.randrange(256) for _ in range(rng.randrange(0, 400))))
     return out
 
 
 # ---------------------------------------------------------------------------------------------
 # vm_compute cross-check shard
+
+def impl_from_data(ver, tu, flags, data):
+    """the implementation's flag handling, observed through a plain binary frame (correspondence only: private API)"""
+    import mutagen
+    from mutagen.id3 import MCDI
+    from mutagen.id3._tags import ID3Header
+    h = ID3Header()
+    h.version = (2, ver, 0)
+    h._flags = 0x80 if tu else 0
+    try:
+        return (0, list(MCDI._fromData(h, flags, data).data))
+    except NotImplementedError:
+        return (3, [])
+    except mutagen.MutagenError:
+        return (4, [])
+    except ValueError:
+        return (1, [])
+    except Exception:
+        return (2, [])
+
+
+def layer_cases(ctx, cases, expect):
+    """Model.C14_Layers (Frame._fromData's flag handling, zlib abstract) against the implementation: the model's
+    `inflate` is the one-entry table {deflate stream -> body} of the case (everything else is a zlib.error), the
+    implementation runs the real zlib.  `expect` receives the implementation's result; the shard evaluates the model."""
+    rng = ctx.rng
+    res = "match %s with Ok l => (0, l) | Raise EValue => (1, []) | Raise ENotImpl => (3, []) | Raise EMutagen => (4, []) | Raise _ => (2, []) end"
+
+    def add(ver, tu, flags, data, z, body):
+        table = "(fun l => if list_eqb l %s then Ok %s else Raise EValue)" % (coq_bytes(z), coq_bytes(body))
+        if ver == 4:
+            cases.append(res % ("from_data_v24 %s %s %d %s" % (table, "true" if tu else "false", flags, coq_bytes(data))))
+        else:
+            cases.append(res % ("from_data_v23 %s %d %s" % (table, flags, coq_bytes(data))))
+        expect.append(impl_from_data(ver, tu, flags, data))
+        ctx.corr_cases += 1
+        ctx.count("layers-correspondence:v2.%d" % ver)
+
+    def body():
+        return bytes(rng.choice(ALPHABET) for _ in range(rng.randrange(1, 9)))
+
+    # well-formed: every flag combination of v2.4
+    for tu in (0, 1):
+        for fu in (0, 1):
+            for zm, dl in ((None, 0), (None, 1), ("z0", 1), ("hand", 1), ("z6", 0)):
+                b = body()
+                l = L(4, tu, fu, zm, dl)
+                raw = build_layout({"version": 4, "tag_unsynch": tu, "padding": 0, "frames": l["frames"]}, b).raw
+                fr = raw[10:]                        # first frame: MCDI
+                assert fr[:4] == b"MCDI"
+                size = ref_decode(fr[4:8], 7, True)
+                flags, = struct.unpack(">H", fr[8:10])
+                add(4, tu, flags, fr[10:10 + size], deflate(b, zm) if zm else b"\x01", b)
+    # malformed / tolerated v2.4 input: encryption flag, junk deflate data, unsafe data under the unsynch flag,
+    # the QL 0.12 layout without the four size bytes, short data
+    b = body()
+    z = deflate(b, "z0")
+    add(4, 0, 0x0004, b, b"\x01", b)
+    add(4, 1, 0x0004 | 0x0008 | 0x0001, syncsafe4(len(b)) + z, z, b)
+    add(4, 0, 0x0008 | 0x0001, syncsafe4(len(b)) + b"\x78\x01junk", z, b)
+    add(4, 0, 0x0002, b"\x01\xff\xe0\xff", b"\x01", b)
+    add(4, 1, 0x0000, b"\xff\x00\xff", b"\x01", b)
+    add(4, 0, 0x0008, z, z, b)
+    add(4, 0, 0x0008 | 0x0002, ref_unsynch_encode(z[:4]) + ref_unsynch_encode(z[4:]), z, b)
+    add(4, 0, 0x0001, b"\x00\x00", b"\x01", b)
+    add(4, 0, 0x0009, b"\x00\x00\x00", b"\x01", b)
+    # v2.3
+    for zm in (None, "z0", "hand", "z6"):
+        b = body()
+        z = deflate(b, zm) if zm else b"\x01"
+        add(3, rng.randrange(2), 0x0080 if zm else 0, (struct.pack(">L", len(b)) + z) if zm else b, z, b)
+    add(3, 0, 0x0040, b, b"\x01", b)
+    add(3, 0, 0x00C0, struct.pack(">L", len(b)) + z, z, b)
+    add(3, 0, 0x0080, b"\x00\x01", b"\x01", b)
+    add(3, 0, 0x0080, struct.pack(">L", 3) + b"\x78\x01junk", b"\x01", b)
+    add(3, 1, 0x0000, b"\xff\x00\xff\x00", b"\x01", b)    # the frame level of v2.3 never destuffs
+
 
 def vm_crosscheck(ctx):
     rng = ctx.rng
@@ -739,7 +1030,8 @@ def vm_crosscheck(ctx):
         expect.append(model_l(ctx.model.call("c14_unsynch_encode", hx(s))))
         cases.append(res_l % ("unsynch_decode %s" % coq_bytes(s)))
         expect.append(model_l(ctx.model.call("c14_unsynch_decode", hx(s))))
-    pre = "From Coq Require Import ZArith List. Import ListNotations. Require Import Base.Py Model.Id3Util. Open Scope Z_scope."
+    layer_cases(ctx, cases, expect)
+    pre = "From Coq Require Import ZArith List. Import ListNotations. Require Import Base.Py Model.Id3Util Model.C14_Layers. Open Scope Z_scope."
     res, log = vm_shard("c14", pre, cases)
     if res is None or len(res) != len(cases):
         _disagree(ctx, "c14.vm_shard", "vm_compute shard failed to run: %s" % (log,), {})
@@ -752,7 +1044,8 @@ def vm_crosscheck(ctx):
             return
         got = (int(m.group(1)), [int(x) for x in m.group(2).split(";") if x.strip()])
         if got != e:
-            _disagree(ctx, "c14.vm_shard", "extracted binary and vm_compute differ on %s: binary=%r vm=%r" % (c, e, got), {})
+            _disagree(ctx, "c14.vm_shard", "%s and vm_compute differ on %s: %s=%r vm=%r" %
+                      (("implementation", c[:300], "impl") if "from_data_v2" in c else ("extracted binary", c, "binary")) + (e, got), {})
             return
 
 
@@ -760,6 +1053,7 @@ def vm_crosscheck(ctx):
 
 def run(ctx):
     reference_selftest()
+    tag_selftest()
     U = _impl()
     rng = ctx.rng
     lat = lattice_values()
@@ -835,8 +1129,10 @@ def replay(ctx, payload):
     if fn in ("unsynch_encode", "unsynch_decode"):
         run_unsynch(ctx, U, [bytes.fromhex(d["data"])], use_model=False)
         return V.total() > 0
+    if fn == "tagx":
+        return not oracle_layout(V, bytes.fromhex(d["payload"]), d["layout"])
     if fn == "tag":
-        return not oracle_tag(V, bytes.fromhex(d["payload"]), d["variant"])
+        return not oracle_layout(V, bytes.fromhex(d["payload"]), OLD_VARIANTS[d["variant"]])
     if fn == "header":
         run_tags(ctx, [])
         return V.total() > 0
